@@ -343,7 +343,15 @@ def run_case(case):
                         mech = "history-dependent"
                         fm_now = solver.force_matrices.get(t)
                         prev_lim = any(o["op"] in ("B", "V") and np.isfinite(o["lim"]) for o, _ in log)
-                        if k in ("table.stress", "edge.tension") and prev_lim:
+                        last_ok_S = max([j_ for j_, (o_, ok_) in enumerate(log) if o_["op"] == "S" and o_.get("t") == t and ok_],
+                                        default=-1)
+                        failed_fix = any(o_["op"] == "S" and o_.get("t") == t and o_.get("method") == "fix_stress" and not ok_
+                                         and j_ > last_ok_S for j_, (o_, ok_) in enumerate(log))
+                        if failed_fix:
+                            # the broken fix_stress branch (known finding F-FIXSTRESS) writes tensions to the mesh edges
+                            # before it fails; nothing after it has overwritten them
+                            mech = "F-FIXSTRESS"
+                        elif k in ("table.stress", "edge.tension") and prev_lim:
                             # stale tension on interfaces excluded by an angle limit in the deciding or an earlier solve
                             mech = "F-STALE-EXCLUDED" if _only_excluded_differ(solver, fresh, t, log) else mech
                         mon.fail(mech, "what is reported for a frame equals a fresh object solved once with the last arguments",
